@@ -154,3 +154,17 @@ Theorem C16_run_multi_single : forall c fs rqs fm,
   run_multi [c] fs [fm] (map (pair O) rqs) = run_requests c fs fm rqs.
 Proof. exact run_multi_single. Qed.
 Print Assumptions C16_run_multi_single.
+
+(* strictness of the UTF-8 decoder the path decoding uses (Lib/Utf8Strict.v): what it accepts is the unique
+   canonical encoding of a sequence of scalar values -- no overlong alias of '/' or '.', no surrogates,
+   nothing above U+10FFFF, no truncated sequence *)
+Require Import Verif.Lib.Utf8Strict.
+Theorem C16_utf8_decode_strict : forall bs cs,
+  Utf8.decode bs = Some cs -> Utf8.encode cs = bs /\ forallb Utf8.valid_scalar cs = true.
+Proof. exact decode_strict. Qed.
+Print Assumptions C16_utf8_decode_strict.
+
+Theorem C16_utf8_decode_injective : forall a b cs,
+  Utf8.decode a = Some cs -> Utf8.decode b = Some cs -> a = b.
+Proof. exact decode_injective. Qed.
+Print Assumptions C16_utf8_decode_injective.
